@@ -23,11 +23,13 @@ def required(sig):
     return [n for n in argnames(sig) if n not in sig['defaulted']]
 
 
-def merged(cfg):
-    """outer (application) list first, then the route's; a unique type already present is not added
-    again (ValueError if it is not reorderable)."""
-    out = list(cfg['mws'])
-    for m in cfg['route_mws']:
+def merge_lists(outer_list, inner_list):
+    """outer (binding application) list first, then the inner one's; a unique type already present is not
+    added again (ValueError if it is not reorderable)."""
+    if outer_list is None or inner_list is None:
+        return None
+    out = list(outer_list)
+    for m in inner_list:
         if m['unique'] and any(o['id'] == m['id'] for o in out):
             if m['reorderable']:
                 continue
@@ -36,15 +38,44 @@ def merged(cfg):
     return out
 
 
+def merged(cfg):
+    m1 = merge_lists(cfg['mws'], cfg['route_mws'])
+    if cfg.get('outer'):
+        return merge_lists(cfg['outer']['mws'], m1)
+    return m1
+
+
+NULL_EP = {'pos': list(B4), 'posonly': 0, 'kwonly': [], 'defaulted': []}
+NULL_RN = {'pos': ['context'], 'posonly': 0, 'kwonly': [], 'defaulted': []}
+
+
+def construction_views(cfg):
+    """every route that is bound while the configuration is constructed, in construction order:
+    (name, url, resources, mws, endpoint sig, render sig).  With an outer application these are the inner
+    application's null route and route, then the outer null route and the re-bound route."""
+    inner_null = ('null', ['_ignored'], list(cfg['resources']), list(cfg['mws']), NULL_EP, NULL_RN)
+    inner_route = ('route', list(cfg['url']), list(cfg['resources']) + list(cfg['route_resources']),
+                   merge_lists(cfg['mws'], cfg['route_mws']), cfg['endpoint']['sig'], cfg['render']['sig'])
+    if not cfg.get('outer'):
+        return [inner_null, inner_route]
+    o = cfg['outer']
+    outer_null = ('null', ['_ignored'], list(o['resources']), list(o['mws']), NULL_EP, NULL_RN)
+    nested = ('route', list(o['prefix_url']) + list(cfg['url']),
+              list(o['resources']) + list(cfg['resources']) + list(cfg['route_resources']), merged(cfg),
+              cfg['endpoint']['sig'], cfg['render']['sig'])
+    return [('inner-null',) + inner_null[1:], ('inner-route',) + inner_route[1:], outer_null, nested]
+
+
 def views(cfg):
-    """the two routes of a chainlab application: (name, url, resources, mws, endpoint sig, render sig)"""
-    null = ('null', ['_ignored'], list(cfg['resources']), list(cfg['mws']),
-            {'pos': list(B4), 'posonly': 0, 'kwonly': [], 'defaulted': []},
-            {'pos': ['context'], 'posonly': 0, 'kwonly': [], 'defaulted': []})
-    m = merged(cfg)
-    route = ('route', list(cfg['url']), list(cfg['resources']) + list(cfg['route_resources']), m,
-             cfg['endpoint']['sig'], cfg['render']['sig'])
-    return [null, route]
+    """the two routes a chainlab application SERVES: its null route and the (possibly re-bound) route"""
+    return [v for v in construction_views(cfg) if v[0] in ('null', 'route')]
+
+
+def all_resources_reserved(cfg):
+    out = any(r in RESERVED for r in cfg['resources'])
+    if cfg.get('outer'):
+        out = out or any(r in RESERVED for r in cfg['outer']['resources'])
+    return out
 
 
 def offers(url, resources, mws):
@@ -58,13 +89,13 @@ def offers(url, resources, mws):
 def c04_defects(cfg):
     """list of (kind, must_be_NameError) for everything C04 says must be rejected at construction"""
     out = []
-    if any(r in RESERVED for r in cfg['resources']):
+    if all_resources_reserved(cfg):
         out.append(('reserved name as application resource', True))
-    for name, url, resources, mws, ep, rn in views(cfg):
+    for name, url, resources, mws, ep, rn in construction_views(cfg):
         if mws is None:
             continue
-        if len(resources) != len(set(resources)) and name == 'route':
-            pass  # application and route resource of one name: the route's wins (documented update), not a conflict
+        if len(url) != len(set(url)):
+            continue                      # a pattern binding one name twice is an invalid pattern (C05), not a source conflict
         names = [n for n, _ in offers(url, resources, mws)]
         dups = sorted(set(n for n in names if names.count(n) > 1))
         if dups:
@@ -167,8 +198,8 @@ def has_posonly_in_scope(cfg):
 
 
 def oracle_c01(cfg, obs):
-    vs = views(cfg)
-    if vs[1][3] is None:
+    vs = construction_views(cfg)
+    if any(v[3] is None for v in vs):
         return None                       # unique non-reorderable type twice: ValueError, outside C01
     if c04_defects(cfg):
         return None                       # C04's rejections
@@ -337,8 +368,8 @@ def oracle_c03(cfg, obs):
 
 
 def oracle_c04(cfg, obs):
-    vs = views(cfg)
-    if vs[1][3] is None:
+    vs = construction_views(cfg)
+    if any(v[3] is None for v in vs):
         return None
     d = c04_defects(cfg)
     if not d:
@@ -454,6 +485,27 @@ def shrink(case):
                 if fails(c):
                     cur, progress = c, True
                     break
+        if cur.get('outer'):
+            c = json.loads(json.dumps(cur))
+            drop = [m['inst'] for m in c['outer']['mws']]
+            del c['outer']
+            c['scripts']['mw'] = [s for s in c['scripts'].get('mw', []) if s[1] not in drop]
+            if fails(c):
+                cur, progress = c, True
+            else:
+                for i in range(len(cur['outer']['mws'])):
+                    c = json.loads(json.dumps(cur))
+                    inst = c['outer']['mws'][i]['inst']
+                    del c['outer']['mws'][i]
+                    c['scripts']['mw'] = [s for s in c['scripts'].get('mw', []) if s[1] != inst]
+                    if fails(c):
+                        cur, progress = c, True
+                        break
+        if cur.get('decoy'):
+            c = json.loads(json.dumps(cur))
+            del c['decoy']
+            if fails(c):
+                cur, progress = c, True
         for key in ('resources', 'route_resources', 'url'):
             for i in range(len(cur[key])):
                 c = json.loads(json.dumps(cur))
@@ -492,10 +544,13 @@ def run(prop, rep, b, tier, seed, only_cases=None):
     for c in cases:
         c['_prop'] = prop
     seeds = (0,) if tier == 'quick' else (0, 1, 2, 3, 4, 5, 6, 7)
-    rep.rule = ('chainlab: application = 0-2 application-level + 0-2 route-level middlewares (second instances of a type, '
+    rep.rule = ('chainlab: application = 0-2 application-level + 0-2 route-level middlewares, in a third of the cases embedded '
+                'under a prefix (with URL bindings) in an outer application with 0-2 middlewares and resources of its own; in '
+                'cases with route-level resources a POST-only decoy route in front that binds one of those names from the URL '
+                'and matches the same paths; (second instances of a type, '
                 'unique/reorderable flags), each with any subset of request/endpoint/render functions, signatures with '
                 'required/defaulted/keyword-only(/positional-only) parameters over {a,b,c,d,e,f}+built-ins, three provides '
-                'tuples, URL bindings, application and route resources, endpoint/render of 7 callable kinds, scripts '
+                'tuples, URL bindings, application and route resources, endpoint/render of 8 callable kinds (incl. a functools.wraps wrapper around a function bound earlier), scripts '
                 '(raise before/after, early Response, swallow, replace; endpoint ctx/Response/raise; render Response/'
                 'non-Response/raise); exhaustive one-middleware scope (%s cases) + random + one stream per C04 defect kind '
                 '(%s); the real Application is constructed and sent two requests to the null route and two to the route; '
@@ -544,8 +599,12 @@ def run(prop, rep, b, tier, seed, only_cases=None):
         rep.count('construct.' + str(o['construct']))
         if c.get('defect'):
             rep.count('defect.' + c['defect'])
-        nmw = len(c['mws']) + len(c['route_mws'])
+        nmw = len(c['mws']) + len(c['route_mws']) + (len(c['outer']['mws']) if c.get('outer') else 0)
         rep.count('mws.%d' % nmw)
+        if c.get('outer'):
+            rep.count('embedded')
+        if c.get('decoy'):
+            rep.count('decoy')
         rep.case(json.dumps(c, sort_keys=True), nontrivial=(o['construct'] != 'ok' or nmw > 0))
     rep.extra['corpus_cases'] = ncorpus
     rep.samples = [cases[0], cases[-1]] if cases else []
